@@ -384,86 +384,108 @@ fn snapshot_hash(root: &Path, c: &Case) -> u64 {
 }
 
 fn evaluate(run: &Run, c: &Case) -> Verdict {
-    let dir = setup(c);
-    let root = dir.path();
-    let mut classes: Vec<String> = Vec::new();
-    let mut interesting = false;
-    // step 0 = pristine worktree, then one step per mutation
-    for step in 0..=c.ops.len() {
-        if step > 0 {
-            if let Err(why) = apply(root, c.ops[step - 1]) {
-                // the mutation is not applicable in this state: the sequence is covered by its prefix
-                return ok_trivial(format!("inapplicable: {why}"));
-            }
-        }
-        run.mc_state(snapshot_hash(root, c));
-        for mode in [Mode::No, Mode::Normal, Mode::All] {
-            let want = git_status(root, mode);
-            let got = match vkit::catch(|| gix_status(root, mode)) {
-                Ok(Ok(g)) => g,
-                Ok(Err(e)) => {
-                    let class = if c.ops[..step].contains(&Op::DirToFile) && want.contains("D d/b") { "gix-error-parent-became-file" } else { "gix-error" };
-                    return bad(class, format!("after {:?} (step {step}) mode {mode:?}: gix status failed: {e}; git: {want:?}", &c.ops[..step]));
-                }
-                #[allow(unreachable_patterns)]
-                Ok(Err(e)) => return bad("gix-error", format!("step {step} mode {mode:?}: gix status failed: {e}; git: {want:?}")),
-                Err(p) => return bad("panic", format!("step {step} mode {mode:?}: {p}")),
-            };
-            run.mc_transitions(1);
-            if want != got {
-                let only_git: Vec<_> = want.difference(&got).collect();
-                let only_gix: Vec<_> = got.difference(&want).collect();
-                let kind = |v: &Vec<&String>| v.iter().map(|s| s.chars().next().unwrap_or(' ')).collect::<BTreeSet<char>>().into_iter().collect::<String>();
-                let class = format!("status-differs[git:{}|gix:{}]", kind(&only_git), kind(&only_gix));
-                return bad(
-                    &class,
-                    format!("after {:?} (step {step}), untracked mode {mode:?}, index_age {}: only git: {only_git:?}; only gix: {only_gix:?}", &c.ops[..step], c.index_age),
-                );
-            }
-            run.mc_validated(1);
-            if mode == Mode::All && step == c.ops.len() {
-                let kinds: BTreeSet<char> = want.iter().map(|s| s.chars().next().unwrap_or(' ')).collect();
-                interesting = !want.is_empty();
-                classes.push(if kinds.is_empty() { "clean".into() } else { kinds.into_iter().collect() });
-            }
+    let v = evaluate_inner(run, c);
+    if let (Err(m), Ok(path)) = (&v, std::env::var("VERIF_C49_DUMP")) {
+        if let Ok(mut f) = std::fs::OpenOptions::new().create(true).append(true).open(path) {
+            let _ = writeln!(f, "{}\t{}", serde_json::to_string(c).unwrap(), m.replace('\n', " "));
         }
     }
-    let class = classes.pop().unwrap_or_default();
+    v
+}
+
+fn evaluate_inner(run: &Run, c: &Case) -> Verdict {
+    let dir = setup(c);
+    let root = dir.path();
+    // Every prefix of the sequence is a case of its own, so status is compared once, after the last mutation.
+    for (step, op) in c.ops.iter().enumerate() {
+        if let Err(why) = apply(root, *op) {
+            // the mutation is not applicable in this state: nothing new beyond the prefix
+            let _ = step;
+            return ok_trivial(format!("inapplicable: {why}"));
+        }
+    }
+    run.mc_state(snapshot_hash(root, c));
+    let git_normal = git_status(root, Mode::Normal);
+    let git_all = git_status(root, Mode::All);
+    // `--untracked-files=no` shows exactly the tracked part of the other modes (no separate git process needed)
+    let git_no: BTreeSet<String> = git_normal.iter().filter(|l| !l.starts_with('?') && !l.starts_with('!')).cloned().collect();
+    if git_no != git_all.iter().filter(|l| !l.starts_with('?') && !l.starts_with('!')).cloned().collect::<BTreeSet<String>>() {
+        vkit::machinery!("git reports different tracked changes for -unormal and -uall: {git_normal:?} vs {git_all:?}");
+    }
+    for (mode, want) in [(Mode::No, &git_no), (Mode::Normal, &git_normal), (Mode::All, &git_all)] {
+        let got = match vkit::catch(|| gix_status(root, mode)) {
+            Ok(Ok(g)) => g,
+            Ok(Err(e)) => return bad("gix-error", format!("after {:?} mode {mode:?}: gix status failed: {e}; git: {want:?}", c.ops)),
+            Err(p) => return bad("panic", format!("after {:?} mode {mode:?}: {p}", c.ops)),
+        };
+        run.mc_transitions(1);
+        if want != &got {
+            let only_git: Vec<_> = want.difference(&got).collect();
+            let only_gix: Vec<_> = got.difference(want).collect();
+            let kind = |v: &Vec<&String>| v.iter().map(|s| s.chars().next().unwrap_or(' ')).collect::<BTreeSet<char>>().into_iter().collect::<String>();
+            let class = format!("status-differs(git:{} gix:{})", kind(&only_git), kind(&only_gix));
+            return bad(&class, format!("after {:?}, untracked mode {mode:?}, index_age {}: only git: {only_git:?}; only gix: {only_gix:?}", c.ops, c.index_age));
+        }
+        run.mc_validated(1);
+    }
+    let kinds: BTreeSet<char> = git_all.iter().map(|s| s.chars().next().unwrap_or(' ')).collect();
+    let class: String = if kinds.is_empty() { "clean".into() } else { kinds.into_iter().collect() };
     // the racy-git question: was a same-size, same-mtime edit among the mutations?
     let stealth = c.ops.iter().any(|o| matches!(o, Op::SameSizeKeepMtime(_)));
     let tag = if stealth { if c.index_age > 0 { "/stealth-edit-nonracy" } else { "/stealth-edit-racy" } } else { "" };
-    if interesting || stealth {
+    if !git_all.is_empty() || stealth {
         ok(format!("agree:{class}{tag}"))
     } else {
         ok_trivial(format!("agree:{class}{tag}"))
     }
 }
 
+/// the operations used for the longest sequences
+fn core_ops() -> Vec<Op> {
+    use Op::*;
+    vec![SameSizeKeepMtime(0), Touch(0), Chmod(0), Delete(0), ToDir(0), SwapLinkAndFile(0), Delete(2), DirToFile, Create(0), Create(1), Create(4), Create(5)]
+}
+
 pub fn run(run: &'static Run) {
-    let depth = run.pick(2, 3);
+    let thorough = !run.quick();
     let alphabet = ops_alphabet();
+    let core = core_ops();
     run.rule(format!(
-        "worktree with tracked a (file), x (executable), d/b, l (symlink), .gitignore ('*.ign', 'igd/'); all mutation sequences of length <= {depth} over {} operations {:?} \
-         (Create(i) makes {:?}); index timestamp - indexed mtime in {{+10 s (not racy), 0, -1 (racily clean)}}; after every mutation status is compared for \
-         showUntrackedFiles = no, normal (collapsed, ignored collapsed), all (every file, ignored matching). Non-trivial = final status not clean or the sequence contains a same-size same-mtime edit.",
+        "worktree with tracked a (file), x (executable), d/b, l (symlink), .gitignore ('*.ign', 'igd/'); every mutation sequence of length <= 2 over {} operations {:?} \
+         (Create(i) makes {:?}){}; index timestamp - indexed mtime in {{+10 s (not racy), 0 (racily clean){}}}; after the last mutation of every sequence (every prefix is a sequence of its own) \
+         status is compared for showUntrackedFiles = no, normal (collapsed, ignored collapsed), all (every file, ignored matching). \
+         Non-trivial = final status not clean or the sequence contains a same-size same-mtime edit.",
         alphabet.len(),
         alphabet,
-        NEW_PATHS
+        NEW_PATHS,
+        if thorough { format!(" and every sequence of length 3 over the {} core operations {:?}", core.len(), core) } else { String::new() },
+        if thorough { ", -1 (racily clean, index older than the file)" } else { "; -1 only for sequences with a same-size same-mtime edit" },
     ));
-    run.assume("oracle: git 2.39.5 `status --porcelain=v2 -z --no-renames --untracked-files=<mode> [--ignored=traditional]` with GIT_OPTIONAL_LOCKS=0 (the oracle never rewrites the index)");
+    run.assume("oracle: git 2.39.5 `status --porcelain=v2 -z --no-renames --untracked-files=normal|all --ignored=traditional` with GIT_OPTIONAL_LOCKS=0 (the oracle never rewrites the index); the expectation for untracked mode `no` is the tracked part of git's answer (checked to be identical in both modes)");
     run.assume("core.trustctime=false in the fixture so that outcomes do not depend on the wall clock (ctime cannot be set); all mtimes are whole seconds; git 2.39.5 is built without USE_NSEC");
     run.assume("gix side: Repository::status().untracked_files(mode).dirwalk_options(emit_ignored).index_worktree_rewrites(None).index_worktree_submodules(None).into_index_worktree_iter(); NeedsUpdate entries are stat refreshes, not changes; only the index-to-worktree half of status is compared (HEAD == index in all states)");
-    run.budget_secs(std::env::var("VERIF_BUDGET").ok().and_then(|s| s.parse().ok()).unwrap_or(run.pick(35.0, 570.0)));
+    run.budget_secs(std::env::var("VERIF_BUDGET").ok().and_then(|s| s.parse().ok()).unwrap_or(run.pick(120.0, 1500.0)));
 
     run.sub_with(
         "sequences",
         vkit::Opts::default().chunk(512),
         |emit| {
-            vkit::enumerate::seqs(&alphabet, 0, depth, |ops| {
+            vkit::enumerate::seqs(&alphabet, 0, 2, |ops| {
+                let stealth = ops.iter().any(|o| matches!(o, Op::SameSizeKeepMtime(_)));
                 for index_age in [10i8, 0, -1] {
+                    if index_age == -1 && !(thorough || stealth) {
+                        continue;
+                    }
                     emit(Case { index_age, ops: ops.to_vec() });
                 }
             });
+            if thorough {
+                vkit::enumerate::seqs(&core, 3, 3, |ops| {
+                    for index_age in [10i8, 0] {
+                        emit(Case { index_age, ops: ops.to_vec() });
+                    }
+                });
+            }
         },
         |c: &Case| evaluate(run, c),
     );
